@@ -121,7 +121,10 @@ package litefs
 
 // the snapshot goroutine: the pipe is closed exactly once, with WriteSnapshotTo's verdict, after the position was published
 //@ func litefs.Store.streamBackupDBSnapshot$1 [C14]
-//@   requires  db != nil && pw != nil
+//@   requires  db != nil && pw != nil && dbWF(db) && ctx != nil
+// (the lock well-formedness WriteSnapshotTo requires is part of the database object invariant, which the backup contracts do
+// not carry through their quantified store invariant: deferred to the thorough tier, undecided there — DESIGN I.7)
+//@   thorough  call/litefs.DB.WriteSnapshotTo/pre#2
 //@   ghost done int = 0
 //@   ghost wrote bool = false
 //@   ghost stored bool = false
